@@ -19,6 +19,7 @@ import (
 
 	"github.com/go-json-experiment/json"
 	"github.com/go-json-experiment/json/jsontext"
+	jsonv1 "github.com/go-json-experiment/json/v1"
 
 	"verif/harness/cov"
 	"verif/harness/ref"
@@ -56,6 +57,7 @@ type kindInfo struct {
 	Min     *big.Int
 	Max     *big.Int
 	StructT reflect.Type // struct{ F T `json:",string"` }
+	SibT    reflect.Type // struct{ A int8 `json:",string"`; F T }
 	MapT    reflect.Type // map[T]int
 }
 
@@ -77,6 +79,7 @@ func init() {
 			}
 		}
 		k.StructT = reflect.StructOf([]reflect.StructField{{Name: "F", Type: k.T, Tag: `json:",string"`}})
+		k.SibT = reflect.StructOf([]reflect.StructField{{Name: "A", Type: reflect.TypeFor[int8](), Tag: `json:",string"`}, {Name: "F", Type: k.T}})
 		k.MapT = reflect.MapOf(k.T, reflect.TypeOf(int(0)))
 		kinds = append(kinds, k)
 		kindByName[name] = k
@@ -282,10 +285,12 @@ const (
 	modeTag
 	modeOpt
 	modeKey
+	modeSibling       // bare number in a field that follows a `string` field whose value failed (errors are not fatal under legacy semantics)
+	modeSiblingQuoted // quoted number in such a field: it carries no option and must be refused
 	nModes
 )
 
-var modeNames = [...]string{"plain", "string-tag", "StringifyNumbers", "map-key"}
+var modeNames = [...]string{"plain", "string-tag", "StringifyNumbers", "map-key", "field-after-failed-string-field", "quoted-into-field-after-failed-string-field"}
 
 func quoteContent(s string, esc bool) string {
 	q, _ := ref.Quote(s, false, false)
@@ -415,12 +420,37 @@ func unmarshalOne(li *litInfo, q string, k *kindInfo, mode int) error {
 	case modeKey:
 		in = `{` + q + `:0}`
 		target = reflect.New(k.MapT)
+	case modeSibling, modeSiblingQuoted:
+		if !li.valid && mode == modeSibling {
+			return nil
+		}
+		v := li.lit
+		if mode == modeSiblingQuoted {
+			v = q
+		}
+		in = `{"A":"999","F":` + v + `}`
+		target = reflect.New(k.SibT)
+		opts = []json.Options{jsonv1.ReportErrorsWithLegacySemantics(true)}
 	}
 	var err error
 	if p := rt.Guard(func() { err = json.Unmarshal([]byte(in), target.Interface(), opts...) }); p != nil {
 		return fmt.Errorf("Unmarshal(%s) into %s (%s) panicked: %v", in, k.Name, modeNames[mode], p)
 	}
 	where := fmt.Sprintf("Unmarshal(%s) into %s (%s)", in, k.Name, modeNames[mode])
+	if mode == modeSibling || mode == modeSiblingQuoted {
+		// "999" does not fit int8: the call fails, and (legacy semantics) goes on with F
+		if err == nil {
+			return fmt.Errorf("%s succeeded although \"999\" does not fit the int8 field A", where)
+		}
+		f := target.Elem().Field(1)
+		if mode == modeSiblingQuoted {
+			if !f.IsZero() {
+				return fmt.Errorf("%s stored %v into F: a quoted number was accepted by a field without the `string` option", where, f.Interface())
+			}
+			return nil
+		}
+		err = nil // judged below through the value of F
+	}
 
 	// expectation
 	accept := false
@@ -437,6 +467,9 @@ func unmarshalOne(li *litInfo, q string, k *kindInfo, mode int) error {
 	default:
 		accept = li.plainInt && (k.Signed || !li.neg) && li.iv.Cmp(k.Min) >= 0 && li.iv.Cmp(k.Max) <= 0
 		wantI = li.iv
+	}
+	if !accept && mode == modeSibling {
+		return nil // F fails as well: nothing to compare
 	}
 	if !accept {
 		if err == nil {
@@ -465,6 +498,8 @@ func unmarshalOne(li *litInfo, q string, k *kindInfo, mode int) error {
 		got = target.Elem()
 	case modeTag:
 		got = target.Elem().Field(0)
+	case modeSibling:
+		got = target.Elem().Field(1)
 	case modeKey:
 		m := target.Elem()
 		if m.Len() != 1 {
@@ -785,6 +820,13 @@ func floatPaths(f float64, bits int, want string) error {
 	if string(got) != "pfx"+want {
 		return fmt.Errorf("%s: AppendFloat = %q; ECMA-262 shortest form is %q", desc, got[min(3, len(got)):], want)
 	}
+	// 1b. the same after bytes that look like part of a number (the formatter
+	// must only look at what it appended itself)
+	for _, pfx := range []string{"1e-300,", "e-", `{"zone-e-b":`, "e-07"} {
+		if got := jsontext.AppendFloat([]byte(pfx), f, bits); string(got) != pfx+want {
+			return fmt.Errorf("%s: AppendFloat after the bytes %q = %q; expected %q", desc, pfx, got, pfx+want)
+		}
+	}
 	// 2. json.Marshal in the four positions
 	k := kindByName["float64"]
 	var v reflect.Value
@@ -847,6 +889,8 @@ func marshalPositions(desc string, k *kindInfo, v reflect.Value, want string) er
 		{"StringifyNumbers", v.Interface(), []json.Options{json.StringifyNumbers(true)}, `"` + want + `"`},
 		{"map-key", mv.Interface(), nil, `{"` + want + `":0}`},
 		// held in interfaces: the untyped fast paths format numbers themselves
+		{"after-small-float", []any{1e-300, v.Interface()}, nil, `[1e-300,` + want + `]`},
+		{"member-named-e-", map[string]any{"zone-e-b": v.Interface()}, nil, `{"zone-e-b":` + want + `}`},
 		{"any-elem", []any{v.Interface()}, nil, `[` + want + `]`},
 		{"any-member", map[string]any{"k": v.Interface()}, nil, `{"k":` + want + `}`},
 		{"any-field", struct{ A any }{v.Interface()}, nil, `{"A":` + want + `}`},
